@@ -114,7 +114,7 @@ Qed.
 Lemma raw_got_event_QI : forall s j, InvW s -> R3 s -> KX (kern s) -> rw_reg s j = true -> QI (raw_got_event sc s j).
 Proof.
   intros s j I R K RJ. unfold raw_got_event. cbv zeta.
-  set (toread := if efd_raw s =? 0 then 1024 else 8).
+  set (toread := if raw_is_pipe s j then 1024 else 8).
   pose proof (raw_got_event_K sc WF dok s j I RJ) as PKK. unfold raw_got_event in PKK. cbv zeta in PKK. fold toread in PKK.
   pose proof (kstable_read (kern s) (rw_rfd s j) toread) as KS.
   pose proof (CNTx_read (kern s) (rw_rfd s j) toread) as CR.
